@@ -16,7 +16,8 @@ RULE = ("Traced runs of both front ends from the shared end-to-end generator wit
         "1e-10*sqrt(S_ii S_jj) + 1e-300; 0-d array accepted for NW=1); the k-th optimiser call of the round received that "
         "covariance bit for bit, the caller's sparsity weight (same object or equal value), W and N. Non-trivial = the "
         "round follows a repopulation or biased=True, in a run with >= 2 rounds; distinct by SHA-1 of the case."
-        " Separately: every MRF stored by an optimise phase equals a fresh solve of that cluster's own covariance, with the synchronous pool and with the library's pool of 2-4 worker processes (K>=3).")
+        " Separately: every MRF stored by an optimise phase equals a fresh solve of that cluster's own covariance, with the synchronous pool and with the library's pool of 2-4 worker processes (K>=3)."
+        ' Requested floors 1e-3..0.3 and the biased flag as bool / np.bool_ / int are part of the run configurations.')
 ASSUMPTIONS = ["per-round states via the guarded phase hook; optimiser arguments via substitution of the public entry point under a synchronous pool"]
 
 
